@@ -660,7 +660,7 @@ struct Model {
     types: BTreeMap<TyRef, (Vec<String>, usize)>,
 }
 
-const BUILTIN_TYPES: [&str; 8] = ["u32", "String", "bool", "Option", "Verdict", "i32", "IpAddr", "Prefix"];
+const BUILTIN_TYPES: [&str; 12] = ["u32", "String", "bool", "Option", "Verdict", "Result", "i32", "IpAddr", "Prefix", "Option", "Result", "Verdict"];
 
 /// Outcome of the model for one library: defect labels (empty = must succeed) and
 /// whether something in it is left unspecified by the property.
@@ -706,7 +706,14 @@ impl Model {
         if let Some((old, old_add)) = sc.decls.get(name) {
             let mut ks = [old.dup_kind(), d.dup_kind()];
             let l = if matches!(old, Decl::Builtin) {
-                format!("dup-builtin:{}", d.dup_kind())
+                // which kind of built-in name is taken: the three prelude enums, List, or a
+                // primitive / leaf type (the compiler treats them differently)
+                let class = match name {
+                    "Option" | "Result" | "Verdict" => "enum",
+                    "List" => "list",
+                    _ => "primitive",
+                };
+                if matches!(d, Decl::Type(_)) { format!("dup-builtin:type:{class}") } else { format!("dup-builtin:{}", d.dup_kind()) }
             } else {
                 ks.sort();
                 format!(
@@ -1589,7 +1596,18 @@ impl<'a> LibGen<'a> {
             let t = free[self.rng.usize(free.len())];
             let s = self.any_scope();
             let sp = self.scopes[s].path.clone();
-            let name = self.fresh_name(&sp);
+            // inside a module the names of the prelude enums are free: a type may take one
+            let enum_name = if !sp.is_empty() && self.rng.chance(1, 6) {
+                let n = *self.rng.pick(&["Option", "Result", "Verdict"]);
+                let set = self.used.entry(sp.clone()).or_default();
+                if set.insert(n.to_string()) { Some(n.to_string()) } else { None }
+            } else {
+                None
+            };
+            let name = match enum_name {
+                Some(n) => n,
+                None => self.fresh_name(&sp),
+            };
             let copy = is_copy_ty(t) && self.rng.bool();
             self.scopes[s].items.push(Node::ty(&name, t, copy));
             let mut tp = sp;
